@@ -28,6 +28,7 @@
 3. A difference is a violation record {plugin, kind, as_swap_delete_model, event, ...}; records matching a
    known finding are KNOWN-FINDING, everything else is a VIOLATION.
 """
+import concurrent.futures
 import json
 import os
 import re
@@ -49,6 +50,10 @@ def _has_junk(v):
 
 def run(ctx):
     total = None
+    # the two harness binaries are compiled in the background while TLC runs
+    ctx.overlay_json()
+    pool = concurrent.futures.ThreadPoolExecutor(max_workers=2)
+    builds = {pkg: pool.submit(ctx.go_test_build, pkg) for pkg in PKGS}
     if ctx.replay:
         cases = [r["case"] for r in json.load(open(ctx.replay))]
         cases = list(dict.fromkeys(cases))
@@ -144,7 +149,7 @@ def run(ctx):
     per_plugin = {}
     for pkg in PKGS:
         name = pkg.rsplit("/", 1)[1]
-        binary = ctx.go_test_build(pkg)
+        binary = builds[pkg].result()
         out = os.path.join(ctx.scratch, "c18_out_%s.json" % name)
         rc, txt = ctx.run_bin(binary, "^TestVerifC18$",
                               env={"VERIF_CASES": path, "VERIF_OUT": out, "VERIF_E2E": e2e_path, "VERIF_STRESS": stress_path,
